@@ -354,7 +354,14 @@ func (cw *commandUnit) Cancel() error {
 
 	proc.Wait()
 
-	cw.UpdateBasicStatus(WorkStateCanceled, "Canceled", -1)
+	// The command may have finished on its own between the signal and the runner's exit:
+	// a unit that has recorded success stays succeeded.
+	cw.UpdateFullStatus(func(status *StatusFileData) {
+		if status.State != WorkStateSucceeded {
+			status.State = WorkStateCanceled
+			status.Detail = "Canceled"
+		}
+	})
 
 	return nil
 }
